@@ -17,6 +17,9 @@ package p18
 // This file: the point worlds (extension of the world construction of world_test.go).
 
 import (
+	"crypto/sha256"
+	"encoding/base64"
+	"encoding/binary"
 	"fmt"
 	"math/big"
 	"os"
@@ -26,6 +29,8 @@ import (
 	"time"
 
 	"github.com/zenon-network/go-zenon/chain/nom"
+	"github.com/zenon-network/go-zenon/common/crypto"
+	"github.com/zenon-network/go-zenon/common/db"
 	"github.com/zenon-network/go-zenon/common/types"
 	"github.com/zenon-network/go-zenon/vm/constants"
 	"github.com/zenon-network/go-zenon/vm/embedded/definition"
@@ -114,6 +119,9 @@ func buildPoint(c *pbt.C, variant int) (*View, error) {
 	fuser[0] = 0
 	for i := 0; i < 5; i++ {
 		spec.Fusions = append(spec.Fusions, sim.FusionSpec{Owner: fuser, Beneficiary: sim.UserKey(i).Address, Amount: int64(3000 + 700*i), Id: types.NewHash([]byte(fmt.Sprintf("c18-point-fusion-%d", i)))})
+	}
+	for i := 0; i < 3; i++ {
+		spec.Fusions = append(spec.Fusions, sim.FusionSpec{Owner: sim.UserKey(0).Address, Beneficiary: sim.ExtraKey(i).Address, Amount: 2000, Id: types.NewHash([]byte(fmt.Sprintf("c18-point-extra-fusion-%d", i)))})
 	}
 	h := newHistNoCleanup(c, spec, worldOpts())
 	var randomIntents []sim.Intent
@@ -215,24 +223,52 @@ func buildPoint(c *pbt.C, variant int) (*View, error) {
 		cost := new(big.Int).Mul(constants.PillarQsrStakeIncreaseAmount, big.NewInt(int64(n)))
 		return cost.Add(cost, constants.PillarQsrStakeBaseAmount)
 	}
-	var goneOwner types.Address
-	for i := 4; i >= 0 && goneOwner.IsZero(); i-- {
-		if ownsPillar(u(i)) || h.Balance(u(i), types.ZnnTokenStandard).Cmp(constants.PillarStakeAmount) < 0 || h.Balance(u(i), types.QsrTokenStandard).Cmp(pillarCost()) < 0 {
-			continue
+	hasPillar := func(name string) bool {
+		for _, p := range pst() {
+			if p.Name == name {
+				return true
+			}
 		}
-		if submit(u(i), types.PillarContract, types.QsrTokenStandard, pillarCost(), definition.ABICommon.PackMethodPanic(definition.DepositQsrMethodName), "pillar.DepositQsr for VP-gone") == nil {
-			continue
-		}
-		if err := produce(2); err != nil {
-			return nil, err
-		}
-		if submit(u(i), types.PillarContract, types.ZnnTokenStandard, constants.PillarStakeAmount,
-			definition.ABIPillars.PackMethodPanic(definition.RegisterMethodName, "VP-gone", sim.ExtraKey(1+variant).Address, u((i+1)%5), uint8(7), uint8(93)), "pillar.Register VP-gone") != nil {
-			goneOwner = u(i)
-		}
+		return false
 	}
-	if err := produce(2); err != nil {
-		return nil, err
+	freeProducer := func() types.Address {
+		used := map[types.Address]bool{}
+		for _, p := range pst() {
+			used[p.BlockProducingAddress] = true
+		}
+		for i := 0; i < 3; i++ {
+			if !used[sim.ExtraKey(i).Address] {
+				return sim.ExtraKey(i).Address
+			}
+		}
+		return sim.ExtraKey(0).Address
+	}
+	for ni, name := range []string{"VP-script", "VP-gone"} {
+		if hasPillar(name) {
+			continue
+		}
+		for _, i := range []int{3, 2, 1, 0, 4} {
+			if ownsPillar(u(i)) || h.Balance(u(i), types.ZnnTokenStandard).Cmp(constants.PillarStakeAmount) < 0 || h.Balance(u(i), types.QsrTokenStandard).Cmp(pillarCost()) < 0 {
+				continue
+			}
+			if submit(u(i), types.PillarContract, types.QsrTokenStandard, pillarCost(), definition.ABICommon.PackMethodPanic(definition.DepositQsrMethodName), "pillar.DepositQsr for "+name) == nil {
+				continue
+			}
+			if err := produce(2); err != nil {
+				return nil, err
+			}
+			submit(u(i), types.PillarContract, types.ZnnTokenStandard, constants.PillarStakeAmount,
+				definition.ABIPillars.PackMethodPanic(definition.RegisterMethodName, name, freeProducer(), u((i+1)%5), uint8(7+ni), uint8(93-ni)), "pillar.Register "+name)
+			if err := produce(2); err != nil {
+				return nil, err
+			}
+			if hasPillar(name) {
+				break
+			}
+		}
+		if !hasPillar(name) {
+			pointNote("no user could register %s", name)
+		}
 	}
 	sentinels := func() []*definition.SentinelInfo {
 		return definition.GetAllSentinelInfo(h.A.Chain.GetFrontierAccountStore(types.SentinelContract).Storage())
@@ -246,7 +282,10 @@ func buildPoint(c *pbt.C, variant int) (*View, error) {
 		return false
 	}
 	registered := 0
-	for i := 0; i < 5 && registered < 2; i++ {
+	for _, i := range []int{0, 1, 4, 2, 3} {
+		if registered >= 2 {
+			break
+		}
 		if hasSentinel(u(i)) || h.Balance(u(i), types.ZnnTokenStandard).Cmp(constants.SentinelZnnRegisterAmount) < 0 || h.Balance(u(i), types.QsrTokenStandard).Cmp(constants.SentinelQsrDepositAmount) < 0 {
 			continue
 		}
@@ -275,7 +314,7 @@ func buildPoint(c *pbt.C, variant int) (*View, error) {
 			submit(u(i), types.SentinelContract, types.QsrTokenStandard, zq(int64(300+7*i)), definition.ABICommon.PackMethodPanic(definition.DepositQsrMethodName), "sentinel.DepositQsr (stays)")
 		}
 	}
-	if goneOwner != (types.Address{}) {
+	if hasPillar("VP-gone") {
 		submit(u(1), types.PillarContract, types.ZnnTokenStandard, zero, definition.ABIPillars.PackMethodPanic(definition.DelegateMethodName, "VP-gone"), "pillar.Delegate(VP-gone)")
 		submit(sim.ExtraKey(0).Address, types.PillarContract, types.ZnnTokenStandard, zero, definition.ABIPillars.PackMethodPanic(definition.DelegateMethodName, "VP-gone"), "pillar.Delegate(VP-gone) by extra")
 	}
@@ -296,30 +335,120 @@ func buildPoint(c *pbt.C, variant int) (*View, error) {
 			submit(u(4), types.SwapContract, types.ZnnTokenStandard, zero, definition.ABISwap.PackMethodPanic(definition.RetrieveAssetsMethodName, pubB64, sig), "swap.RetrieveAssets(key 1)")
 		}
 	}
-	// 6. projects, phases, votes; hash time locks
-	for i := 0; i < 3; i++ {
+	// 6. projects in every state: accepted with a paid and a second phase, accepted with a replaced phase under vote,
+	// rejected, not voted; explicit yes / no / abstain votes
+	projectList := func() []*definition.Project {
+		l, _ := definition.GetProjectList(h.A.Chain.GetFrontierAccountStore(types.AcceleratorContract).Storage())
+		return l
+	}
+	project := func(id types.Hash) *definition.Project {
+		for _, p := range projectList() {
+			if p.Id == id {
+				return p
+			}
+		}
+		return nil
+	}
+	voteAll := func(id types.Hash, votes ...uint8) {
+		for pi, ps := range spec.Pillars {
+			vote := votes[pi%len(votes)]
+			if vote > definition.VoteAbstain {
+				continue
+			}
+			submit(sim.PillarKey(ps.Key).Address, types.AcceleratorContract, types.ZnnTokenStandard, zero,
+				definition.ABICommon.PackMethodPanic(definition.VoteByNameMethodName, id, ps.Name, vote), fmt.Sprintf("accelerator.VoteByName(%s, %s, %d)", id.String()[:8], ps.Name, vote))
+		}
+	}
+	const skipVote = uint8(9)
+	var mine []types.Hash
+	for i := 0; i < 4; i++ {
+		owner := u(i)
+		if h.Balance(owner, types.ZnnTokenStandard).Cmp(constants.ProjectCreationAmount) < 0 {
+			continue
+		}
+		if b := submit(owner, types.AcceleratorContract, types.ZnnTokenStandard, constants.ProjectCreationAmount, definition.ABIAccelerator.PackMethodPanic(definition.CreateProjectMethodName,
+			fmt.Sprintf("Point-Project-%d", i), fmt.Sprintf("description %d of the point world", i), "www.verif.test", zq(int64(40+i)), zq(int64(400+10*i))), fmt.Sprintf("accelerator.CreateProject %d", i)); b != nil {
+			mine = append(mine, b.Hash)
+			h.Projects = append(h.Projects, b.Hash)
+		}
+	}
+	submit(u(0), types.AcceleratorContract, types.ZnnTokenStandard, zq(300), definition.ABICommon.PackMethodPanic(definition.DonateMethodName), "accelerator.Donate znn")
+	submit(u(0), types.AcceleratorContract, types.QsrTokenStandard, zq(3000), definition.ABICommon.PackMethodPanic(definition.DonateMethodName), "accelerator.Donate qsr")
+	if err := produce(2); err != nil {
+		return nil, err
+	}
+	for i, id := range mine {
+		switch i {
+		case 0:
+			voteAll(id, definition.VoteYes)
+		case 1:
+			voteAll(id, definition.VoteYes, definition.VoteYes, definition.VoteNo)
+		case 2:
+			voteAll(id, definition.VoteNo, definition.VoteAbstain, definition.VoteYes, definition.VoteNo)
+		}
+	}
+	if err := produce(int(constants.UpdateMinNumMomentums) + 2); err != nil {
+		return nil, err
+	}
+	var phases []types.Hash
+	for i, id := range mine {
+		if p := project(id); p != nil && p.Status == definition.ActiveStatus {
+			if b := submit(p.Owner, types.AcceleratorContract, types.ZnnTokenStandard, zero, definition.ABIAccelerator.PackMethodPanic(definition.AddPhaseMethodName, id,
+				fmt.Sprintf("Point-Phase-%d", i), "first phase", "www.verif.test/phase", zq(int64(3+i)), zq(int64(30+i))), fmt.Sprintf("accelerator.AddPhase %d", i)); b != nil {
+				phases = append(phases, b.Hash)
+			}
+		}
+	}
+	if err := produce(2); err != nil {
+		return nil, err
+	}
+	for i, id := range phases {
+		if i == 0 {
+			voteAll(id, definition.VoteYes)
+		} else {
+			voteAll(id, definition.VoteYes, definition.VoteNo, skipVote)
+		}
+	}
+	if err := produce(int(constants.UpdateMinNumMomentums) + 2); err != nil {
+		return nil, err
+	}
+	for i, id := range mine {
+		p := project(id)
+		if p == nil || p.Status != definition.ActiveStatus {
+			continue
+		}
+		method, name := definition.AddPhaseMethodName, "second phase"
+		if i > 0 {
+			method, name = definition.UpdatePhaseMethodName, "replaced phase"
+		}
+		if b := submit(p.Owner, types.AcceleratorContract, types.ZnnTokenStandard, zero, definition.ABIAccelerator.PackMethodPanic(method, id,
+			fmt.Sprintf("Point-Phase-%d-b", i), name, "www.verif.test/phase2", zq(int64(5+i)), zq(int64(50+i))), fmt.Sprintf("accelerator.%s %d", method, i)); b != nil && i > 0 {
+			if err := produce(2); err != nil {
+				return nil, err
+			}
+			voteAll(b.Hash, definition.VoteNo, definition.VoteYes, definition.VoteAbstain)
+		}
+	}
+	for i := 0; i < 2; i++ {
 		intent("accelerator-project")
 		intent("htlc-create")
 	}
 	if err := produce(2); err != nil {
 		return nil, err
 	}
-	for i := 0; i < 8; i++ {
+	for i := 0; i < 4; i++ {
 		intent("accelerator-vote")
 	}
-	// explicit no / abstain votes on the newest project
-	if n := len(h.Projects); n > 0 {
-		for pi, ps := range spec.Pillars {
-			vote := []uint8{definition.VoteNo, definition.VoteAbstain, definition.VoteYes, definition.VoteNo}[pi%4]
-			submit(sim.PillarKey(ps.Key).Address, types.AcceleratorContract, types.ZnnTokenStandard, zero,
-				definition.ABICommon.PackMethodPanic(definition.VoteByNameMethodName, h.Projects[n-1], ps.Name, vote), fmt.Sprintf("accelerator.VoteByName(%d)", vote))
+	// the bridge's first unwrap requests are redeemable by now: two are redeemed, one is revoked by the administrator
+	if unwraps, err := definition.GetUnwrapTokenRequests(h.A.Chain.GetFrontierAccountStore(types.BridgeContract).Storage()); err == nil {
+		for i, r := range unwraps {
+			switch {
+			case i%5 == 0 || i%5 == 3:
+				submit(u(i%5), types.BridgeContract, types.ZnnTokenStandard, zero, definition.ABIBridge.PackMethodPanic(definition.RedeemUnwrapMethodName, r.TransactionHash, r.LogIndex), "bridge.Redeem")
+			case i%5 == 1:
+				submit(bridgeAdmin(), types.BridgeContract, types.ZnnTokenStandard, zero, definition.ABIBridge.PackMethodPanic(definition.RevokeUnwrapRequestMethodName, r.TransactionHash, r.LogIndex), "bridge.RevokeUnwrapRequest")
+			}
 		}
-	}
-	if err := produce(int(constants.UpdateMinNumMomentums) + 2); err != nil {
-		return nil, err
-	}
-	for i := 0; i < 3; i++ {
-		intent("accelerator-add-phase")
 	}
 	if err := produce(2); err != nil {
 		return nil, err
@@ -400,6 +529,19 @@ func buildPoint(c *pbt.C, variant int) (*View, error) {
 	// 9. variant 1: the administrator changes delays, metadata and the orchestrator parameters; a time jump far
 	// enough for the legacy assets to decay
 	if variant == 1 {
+		// (epoch 0 starts at genesis; the decay of the legacy assets starts with epoch SwapAssetDecayEpochsOffset)
+		t0 := time.Now()
+		for jumps := 0; jumps < 4; jumps++ {
+			if !h.Produce(60*constants.SwapAssetDecayTickEpochs - 7) {
+				return nil, fmt.Errorf("point script: producer stopped in the time jump: %v", h.A.Preflight)
+			}
+			if err := produce(2); err != nil {
+				return nil, err
+			}
+		}
+		if os.Getenv("C18_DEBUG") != "" {
+			fmt.Fprintf(os.Stderr, "C18 point script: time jump took %.1fs\n", time.Since(t0).Seconds())
+		}
 		admin := bridgeAdmin()
 		submit(admin, types.BridgeContract, types.ZnnTokenStandard, zero, definition.ABIBridge.PackMethodPanic(definition.SetBridgeMetadataMethodName, `{"verif":18}`), "bridge.SetBridgeMetadata")
 		submit(admin, types.BridgeContract, types.ZnnTokenStandard, zero, definition.ABIBridge.PackMethodPanic(definition.SetNetworkMetadataMethodName, uint32(2), uint32(124), `{"k":"v"}`), "bridge.SetNetworkMetadata")
@@ -434,6 +576,38 @@ func buildPoint(c *pbt.C, variant int) (*View, error) {
 	if err := produce(1); err != nil {
 		return nil, err
 	}
+	// hash time locks that stay: user and contract beneficiaries, both hash types, ZNN / QSR / a custom token
+	{
+		now := h.A.Frontier().Timestamp.Unix()
+		type lock struct {
+			from, locked types.Address
+			z            types.ZenonTokenStandard
+			amt          int64
+			hashType     uint8
+			keyMax       uint8
+			exp          int64
+		}
+		for i, l := range []lock{{u(0), u(1), types.ZnnTokenStandard, 5 * sim.Zexp, definition.HashTypeSHA3, 32, now + 86400}, {u(1), types.BridgeContract, types.QsrTokenStandard, 777, definition.HashTypeSHA256, 255, now + 3600},
+			{u(2), u(2), spec.Tokens[0].Zts, 7, definition.HashTypeSHA3, 1, now + 100000}, {u(3), sim.ExtraKey(2).Address, types.ZnnTokenStandard, 1, definition.HashTypeSHA256, 64, now + 700}} {
+			pre := []byte(fmt.Sprintf("point-preimage-%d", i))
+			var lockHash []byte
+			if l.hashType == definition.HashTypeSHA3 {
+				lockHash = crypto.Hash(pre)
+			} else {
+				s := sha256.Sum256(pre)
+				lockHash = s[:]
+			}
+			if h.Balance(l.from, l.z).Cmp(big.NewInt(l.amt)) < 0 {
+				continue
+			}
+			if b := submit(l.from, types.HtlcContract, l.z, big.NewInt(l.amt), definition.ABIHtlc.PackMethodPanic(definition.CreateHtlcMethodName, l.locked, l.exp, l.hashType, l.keyMax, lockHash), fmt.Sprintf("htlc.Create %d", i)); b != nil {
+				h.Htlcs = append(h.Htlcs, sim.HtlcSecret{Id: b.Hash, Preimage: pre, Creator: l.from, Locked: l.locked})
+			}
+		}
+		if err := produce(2); err != nil {
+			return nil, err
+		}
+	}
 	// 11. the pool at the end: unconfirmed blocks of several users (their plasma is in use), contract receives pending
 	for k := 0; k < 3; k++ {
 		submit(u(k), u((k+1)%5), types.ZnnTokenStandard, big.NewInt(int64(11+k)), []byte(fmt.Sprintf("pooled-%d", k)), "pooled send")
@@ -448,6 +622,469 @@ func buildPoint(c *pbt.C, variant int) (*View, error) {
 	}
 	v.Pillars = append(v.Pillars, "VP-script", "VP-gone")
 	return v, nil
+}
+
+func base64Std(b []byte) string { return base64.StdEncoding.EncodeToString(b) }
+
+// ---- ground truth: the contract state at the frontier, scanned without rpc/api -----------------------------------
+
+type amounts struct{ Znn, Qsr *big.Int }
+
+type htlcEntry struct {
+	Id             types.Hash
+	TimeLocked     types.Address
+	HashLocked     types.Address
+	TokenStandard  types.ZenonTokenStandard
+	Amount         *big.Int
+	ExpirationTime int64
+	HashType       uint8
+	KeyMaxSize     uint8
+	HashLock       []byte
+}
+
+type fusionEntry struct {
+	Owner            types.Address
+	Id               types.Hash
+	Amount           *big.Int
+	ExpirationHeight uint64
+	Beneficiary      types.Address
+}
+
+// Truth is what the contracts hold at the frontier the apis read: the pool frontier of every contract's account
+// store (rpc/api/utils.go GetFrontierContext), the confirmed momentum store where the api reads that.
+type Truth struct {
+	V *View
+
+	Pillars     []*definition.PillarInfo // active and revoked
+	Delegations map[types.Address]string
+	Legacy      []*definition.LegacyPillarEntry
+	Deposits    map[types.Address]map[types.Address]*big.Int // contract -> depositor -> QSR
+	Rewards     map[types.Address]map[types.Address]amounts  // contract -> address -> uncollected reward
+	RewardHist  map[types.Address]map[string]amounts         // contract -> "address/epoch" -> reward of that epoch
+	LastEpoch   map[types.Address]int64
+	PillarHist  map[string]*definition.PillarEpochHistory // "name/epoch"
+	Sentinels   []*definition.SentinelInfo
+	Stakes      []*definition.StakeInfo
+	Fusions     []fusionEntry              // pool frontier of the plasma contract
+	FusedConf   map[types.Address]*big.Int // confirmed state: beneficiary -> sum of the fusion entries
+	ConfBalance func(a types.Address, z types.ZenonTokenStandard) *big.Int
+	Swap        []*definition.SwapAssets
+	Tokens      map[types.ZenonTokenStandard]*definition.TokenInfo
+	Htlcs       map[types.Hash]*htlcEntry
+	Proxy       map[types.Address]bool
+	Projects    []*definition.Project
+	Phases      map[types.Hash]*definition.Phase
+	Votes       map[types.Hash][]*definition.PillarVote
+
+	BridgeInfo   *definition.BridgeInfoVariable
+	Orchestrator *definition.OrchestratorInfo
+	BridgeSec    *definition.SecurityInfoVariable
+	Networks     []*definition.NetworkInfo
+	Wraps        []*definition.WrapTokenRequest
+	Unwraps      []*definition.UnwrapTokenRequest
+	Fees         map[types.ZenonTokenStandard]*big.Int
+	BridgeTC     map[string]*definition.TimeChallengeInfo
+
+	LiqInfo   *definition.LiquidityInfo
+	LiqSec    *definition.SecurityInfoVariable
+	LiqTC     map[string]*definition.TimeChallengeInfo
+	LiqStakes []*definition.LiquidityStakeEntry
+
+	// consensus view of the frontier momentum (the data source of weight / currentStats, not part of rpc/api)
+	Weights map[string]*big.Int
+	Stats   map[string][2]uint64
+	Epoch   uint64
+}
+
+func (t *Truth) Summary() string {
+	active, revoked := 0, 0
+	for _, p := range t.Pillars {
+		if p.RevokeTime == 0 {
+			active++
+		} else {
+			revoked++
+		}
+	}
+	sa, sr := 0, 0
+	for _, s := range t.Sentinels {
+		if s.RevokeTimestamp == 0 {
+			sa++
+		} else {
+			sr++
+		}
+	}
+	nz := func(m map[types.Address]amounts) int {
+		n := 0
+		for _, a := range m {
+			if a.Znn.Sign() > 0 || a.Qsr.Sign() > 0 {
+				n++
+			}
+		}
+		return n
+	}
+	votes := 0
+	for _, l := range t.Votes {
+		votes += len(l)
+	}
+	signed, redeemed, revokedU := 0, 0, 0
+	for _, w := range t.Wraps {
+		if w.Signature != "" {
+			signed++
+		}
+	}
+	for _, u := range t.Unwraps {
+		if u.Redeemed != 0 {
+			redeemed++
+		}
+		if u.Revoked != 0 {
+			revokedU++
+		}
+	}
+	names := ""
+	for _, p := range t.Pillars {
+		names += fmt.Sprintf(" %s(type %d, revoked %d)", p.Name, p.PillarType, p.RevokeTime)
+	}
+	return fmt.Sprintf("epoch %d;"+names+"; pillars %d active %d revoked, %d backers, %d legacy slots; deposits pillar %d sentinel %d; uncollected rewards pillar %d sentinel %d stake %d liquidity %d; "+
+		"sentinels %d active %d revoked; %d stakes; %d fusions; %d swap entries; %d tokens; %d htlcs, %d proxy settings; %d projects %d phases %d votes; "+
+		"bridge: %d networks, %d wraps (%d signed), %d unwraps (%d redeemed %d revoked), %d fee entries, %d challenges; liquidity: %d tuples, %d stakes, %d challenges",
+		t.Epoch, active, revoked, len(t.Delegations), len(t.Legacy), len(t.Deposits[types.PillarContract]), len(t.Deposits[types.SentinelContract]),
+		nz(t.Rewards[types.PillarContract]), nz(t.Rewards[types.SentinelContract]), nz(t.Rewards[types.StakeContract]), nz(t.Rewards[types.LiquidityContract]),
+		sa, sr, len(t.Stakes), len(t.Fusions), len(t.Swap), len(t.Tokens), len(t.Htlcs), len(t.Proxy), len(t.Projects), len(t.Phases), votes,
+		len(t.Networks), len(t.Wraps), signed, len(t.Unwraps), redeemed, revokedU, len(t.Fees), len(t.BridgeTC), len(t.LiqInfo.TokenTuples), len(t.LiqStakes), len(t.LiqTC))
+}
+
+var truthCache sync.Map // *View -> *Truth (long-lived views only)
+
+func scanTruth(v *View) *Truth {
+	if v.LongLived {
+		if t, ok := truthCache.Load(v); ok {
+			return t.(*Truth)
+		}
+	}
+	t, err := scanTruthNow(v)
+	if err != nil {
+		panic(fmt.Sprintf("C18: ground-truth scan of %s failed: %v", v.Name, err))
+	}
+	if v.LongLived {
+		truthCache.Store(v, t)
+	}
+	return t
+}
+
+// scanRaw walks the live entries under a key prefix.
+func scanRaw(st db.DB, prefix []byte, f func(key, value []byte) error) error {
+	it := st.NewIterator(prefix)
+	defer it.Release()
+	for it.Next() {
+		if len(it.Value()) == 0 {
+			continue
+		}
+		k, val := append([]byte{}, it.Key()...), append([]byte{}, it.Value()...)
+		if err := f(k, val); err != nil {
+			return err
+		}
+	}
+	return it.Error()
+}
+
+func scanChallenges(st db.DB) (map[string]*definition.TimeChallengeInfo, error) {
+	out := map[string]*definition.TimeChallengeInfo{}
+	err := scanRaw(st, definition.TimeChallengeKeyPrefix, func(k, val []byte) error {
+		tc := new(definition.TimeChallengeInfo)
+		if err := definition.ABICommon.UnpackVariable(tc, "timeChallengeInfo", val); err != nil {
+			return err
+		}
+		out[tc.MethodName] = tc
+		return nil
+	})
+	return out, err
+}
+
+func scanTruthNow(v *View) (*Truth, error) {
+	n := v.N
+	st := func(ct types.Address) db.DB { return n.Chain.GetFrontierAccountStore(ct).Storage() }
+	ms := n.Chain.GetFrontierMomentumStore()
+	t := &Truth{V: v, Delegations: map[types.Address]string{}, Deposits: map[types.Address]map[types.Address]*big.Int{}, Rewards: map[types.Address]map[types.Address]amounts{},
+		RewardHist: map[types.Address]map[string]amounts{}, LastEpoch: map[types.Address]int64{}, PillarHist: map[string]*definition.PillarEpochHistory{},
+		FusedConf: map[types.Address]*big.Int{}, Tokens: map[types.ZenonTokenStandard]*definition.TokenInfo{}, Htlcs: map[types.Hash]*htlcEntry{}, Proxy: map[types.Address]bool{},
+		Phases: map[types.Hash]*definition.Phase{}, Votes: map[types.Hash][]*definition.PillarVote{}, Fees: map[types.ZenonTokenStandard]*big.Int{}}
+	var err error
+	// pillar contract
+	ps := st(types.PillarContract)
+	if t.Pillars, err = definition.GetPillarsList(ps, false, definition.AnyPillarType); err != nil {
+		return nil, err
+	}
+	dl, err := definition.GetDelegationsList(ps)
+	if err != nil {
+		return nil, err
+	}
+	for _, d := range dl {
+		t.Delegations[d.Backer] = d.Name
+	}
+	if t.Legacy, err = definition.GetLegacyPillarList(ps); err != nil {
+		return nil, err
+	}
+	// shared variables: deposits, rewards, reward history, epoch cursor
+	for _, ct := range []types.Address{types.PillarContract, types.SentinelContract, types.StakeContract, types.LiquidityContract} {
+		cs := st(ct)
+		t.Deposits[ct], t.Rewards[ct], t.RewardHist[ct] = map[types.Address]*big.Int{}, map[types.Address]amounts{}, map[string]amounts{}
+		if err := scanRaw(cs, []byte{130}, func(k, val []byte) error {
+			var d struct{ Qsr *big.Int }
+			if err := definition.ABICommon.UnpackVariable(&d, definition.QsrDepositVariableName, val); err != nil {
+				return err
+			}
+			a, err := types.BytesToAddress(k[1:])
+			if err != nil {
+				return err
+			}
+			t.Deposits[ct][a] = d.Qsr
+			return nil
+		}); err != nil {
+			return nil, err
+		}
+		if err := scanRaw(cs, []byte{128}, func(k, val []byte) error {
+			var d amounts
+			if err := definition.ABICommon.UnpackVariable(&d, definition.RewardDepositVariableName, val); err != nil {
+				return err
+			}
+			a, err := types.BytesToAddress(k[1:])
+			if err != nil {
+				return err
+			}
+			t.Rewards[ct][a] = d
+			return nil
+		}); err != nil {
+			return nil, err
+		}
+		if err := scanRaw(cs, []byte{132}, func(k, val []byte) error {
+			var d amounts
+			if err := definition.ABICommon.UnpackVariable(&d, definition.RewardDepositHistoryVariableName, val); err != nil {
+				return err
+			}
+			if len(k) != 1+types.AddressSize+8 {
+				return fmt.Errorf("reward history key of length %d", len(k))
+			}
+			a, err := types.BytesToAddress(k[1 : 1+types.AddressSize])
+			if err != nil {
+				return err
+			}
+			t.RewardHist[ct][fmt.Sprintf("%v/%d", a, binary.LittleEndian.Uint64(k[1+types.AddressSize:]))] = d
+			return nil
+		}); err != nil {
+			return nil, err
+		}
+		le, err := definition.GetLastEpochUpdate(cs)
+		if err != nil {
+			return nil, err
+		}
+		t.LastEpoch[ct] = le.LastEpoch
+	}
+	for ep := int64(0); ep <= t.LastEpoch[types.PillarContract]; ep++ {
+		l, err := definition.GetPillarEpochHistoryList(ps, uint64(ep))
+		if err != nil {
+			return nil, err
+		}
+		for _, x := range l {
+			t.PillarHist[fmt.Sprintf("%s/%d", x.Name, x.Epoch)] = x
+		}
+	}
+	t.Sentinels = definition.GetAllSentinelInfo(st(types.SentinelContract))
+	if err := definition.IterateStakeEntries(st(types.StakeContract), func(s *definition.StakeInfo) error { t.Stakes = append(t.Stakes, s); return nil }); err != nil {
+		return nil, err
+	}
+	// plasma: entries at the pool frontier (lists) and at the confirmed state (fused amounts)
+	fusions := func(s db.DB) ([]fusionEntry, error) {
+		var out []fusionEntry
+		err := scanRaw(s, []byte{1}, func(k, val []byte) error {
+			if len(k) != 1+types.AddressSize+types.HashSize {
+				return fmt.Errorf("fusion key of length %d", len(k))
+			}
+			var fv struct {
+				Amount           *big.Int
+				ExpirationHeight uint64
+				Beneficiary      types.Address
+			}
+			if err := definition.ABIPlasma.UnpackVariable(&fv, "fusionInfo", val); err != nil {
+				return err
+			}
+			e := fusionEntry{Amount: fv.Amount, ExpirationHeight: fv.ExpirationHeight, Beneficiary: fv.Beneficiary}
+			copy(e.Owner[:], k[1:1+types.AddressSize])
+			copy(e.Id[:], k[1+types.AddressSize:])
+			out = append(out, e)
+			return nil
+		})
+		return out, err
+	}
+	if t.Fusions, err = fusions(st(types.PlasmaContract)); err != nil {
+		return nil, err
+	}
+	conf, err := fusions(ms.GetAccountStore(types.PlasmaContract).Storage())
+	if err != nil {
+		return nil, err
+	}
+	for _, f := range conf {
+		if t.FusedConf[f.Beneficiary] == nil {
+			t.FusedConf[f.Beneficiary] = new(big.Int)
+		}
+		t.FusedConf[f.Beneficiary].Add(t.FusedConf[f.Beneficiary], f.Amount)
+	}
+	t.ConfBalance = func(a types.Address, z types.ZenonTokenStandard) *big.Int {
+		b, err := ms.GetAccountStore(a).GetBalance(z)
+		if err != nil || b == nil {
+			return new(big.Int)
+		}
+		return b
+	}
+	if t.Swap, err = definition.GetSwapAssets(st(types.SwapContract)); err != nil {
+		return nil, err
+	}
+	toks, err := definition.GetTokenInfoList(st(types.TokenContract))
+	if err != nil {
+		return nil, err
+	}
+	for _, ti := range toks {
+		t.Tokens[ti.TokenStandard] = ti
+	}
+	// hash time locks
+	hs := st(types.HtlcContract)
+	if err := scanRaw(hs, []byte{1}, func(k, val []byte) error {
+		e := new(htlcEntry)
+		if err := definition.ABIHtlc.UnpackVariable(e, "htlcInfo", val); err != nil {
+			return err
+		}
+		if len(k) != 1+types.HashSize {
+			return fmt.Errorf("htlc key of length %d", len(k))
+		}
+		copy(e.Id[:], k[1:])
+		t.Htlcs[e.Id] = e
+		return nil
+	}); err != nil {
+		return nil, err
+	}
+	if err := scanRaw(hs, []byte{2}, func(k, val []byte) error {
+		var p struct{ Allowed bool }
+		if err := definition.ABIHtlc.UnpackVariable(&p, "htlcProxyUnlockInfo", val); err != nil {
+			return err
+		}
+		a, err := types.BytesToAddress(k[1:])
+		if err != nil {
+			return err
+		}
+		t.Proxy[a] = p.Allowed
+		return nil
+	}); err != nil {
+		return nil, err
+	}
+	// accelerator
+	as := st(types.AcceleratorContract)
+	if t.Projects, err = definition.GetProjectList(as); err != nil {
+		return nil, err
+	}
+	phasePrefix := (&definition.Phase{}).Key()[:1]
+	if err := scanRaw(as, phasePrefix, func(k, val []byte) error {
+		ph := new(definition.Phase)
+		if err := definition.ABIAccelerator.UnpackVariable(ph, definition.PhaseVariableName, val); err != nil {
+			return err
+		}
+		t.Phases[ph.Id] = ph
+		return nil
+	}); err != nil {
+		return nil, err
+	}
+	if err := scanRaw(as, []byte{133}, func(k, val []byte) error {
+		pv := new(definition.PillarVote)
+		if err := definition.ABICommon.UnpackVariable(pv, definition.PillarVoteVariableName, val); err != nil {
+			return err
+		}
+		t.Votes[pv.Id] = append(t.Votes[pv.Id], pv)
+		return nil
+	}); err != nil {
+		return nil, err
+	}
+	// bridge
+	bs := st(types.BridgeContract)
+	if t.BridgeInfo, err = definition.GetBridgeInfoVariable(bs); err != nil {
+		return nil, err
+	}
+	if t.Orchestrator, err = definition.GetOrchestratorInfoVariable(bs); err != nil {
+		return nil, err
+	}
+	if t.BridgeSec, err = definition.GetSecurityInfoVariable(bs); err != nil {
+		return nil, err
+	}
+	if t.Networks, err = definition.GetNetworkList(bs); err != nil {
+		return nil, err
+	}
+	if t.Wraps, err = definition.GetWrapTokenRequests(bs); err != nil {
+		return nil, err
+	}
+	if t.Unwraps, err = definition.GetUnwrapTokenRequests(bs); err != nil {
+		return nil, err
+	}
+	if err := scanRaw(bs, definition.FeeTokenPairKeyPrefix, func(k, val []byte) error {
+		var f struct{ AccumulatedFee *big.Int }
+		if err := definition.ABIBridge.UnpackVariable(&f, "feeTokenPair", val); err != nil {
+			return err
+		}
+		var z types.ZenonTokenStandard
+		if err := z.SetBytes(k[1:]); err != nil {
+			return err
+		}
+		t.Fees[z] = f.AccumulatedFee
+		return nil
+	}); err != nil {
+		return nil, err
+	}
+	if t.BridgeTC, err = scanChallenges(bs); err != nil {
+		return nil, err
+	}
+	// liquidity
+	ls := st(types.LiquidityContract)
+	if t.LiqInfo, err = definition.GetLiquidityInfo(ls); err != nil {
+		return nil, err
+	}
+	if t.LiqSec, err = definition.GetSecurityInfoVariable(ls); err != nil {
+		return nil, err
+	}
+	if t.LiqTC, err = scanChallenges(ls); err != nil {
+		return nil, err
+	}
+	t.LiqStakes = definition.GetAllLiquidityStakeEntries(ls)
+	// consensus
+	front := n.Frontier()
+	reader := n.Cons.FixedPillarReader(front.Identifier())
+	t.Epoch = reader.EpochTicker().ToTick(*front.Timestamp)
+	if t.Weights, err = reader.GetPillarWeights(); err != nil {
+		return nil, err
+	}
+	t.Stats = map[string][2]uint64{}
+	stats, err := reader.EpochStats(t.Epoch)
+	if err != nil {
+		return nil, err
+	}
+	if stats != nil {
+		for name, s := range stats.Pillars {
+			t.Stats[name] = [2]uint64{s.BlockNum, s.ExceptedBlockNum}
+		}
+	}
+	return t, nil
+}
+
+// TestC18PointDump prints what the point worlds hold (diagnostic; runs only with C18_DUMP set).
+func TestC18PointDump(t *testing.T) {
+	if os.Getenv("C18_DUMP") == "" {
+		t.Skip("diagnostic")
+	}
+	for i := 0; i < pointVariants; i++ {
+		PointView(t, i)
+	}
+	for _, s := range PointScriptNotes {
+		fmt.Fprintln(os.Stderr, "  script:", s)
+	}
+	for i := 0; i < bigVariants; i++ {
+		v := BigView(t, i)
+		fmt.Fprintf(os.Stderr, "C18: %s: %s\n", v.Name, scanTruth(v).Summary())
+	}
 }
 
 var _ = sort.Strings
